@@ -579,7 +579,7 @@ func runE2EModel(t *rapid.T, focus string) {
 	}
 	defer func() {
 		time.Sleep(30 * time.Millisecond) // see the restart step
-		_ = srv.s.Close()
+		srv.stop()
 	}()
 	var copts []oxia.ClientOption
 	copts = append(copts, oxia.WithRequestTimeout(8*time.Second))
@@ -654,7 +654,7 @@ func runE2EModel(t *rapid.T, focus string) {
 			restarted = true
 			c.logf("server restart")
 			time.Sleep(30 * time.Millisecond) // let the read goroutines of the server finish closing their iterators
-			_ = srv.s.Close()
+			srv.stop()
 			if err := srv.start(); err != nil {
 				t.Skip("inconclusive: standalone does not restart: " + err.Error())
 			}
